@@ -386,3 +386,18 @@ Proof.
     - apply IH. exact H1. }
   apply Hgen. apply calls_init. exact Hwf.
 Qed.
+
+(* ---------------------------------------------------------------- the code's + over a NULL call result *)
+(* lag(v) + acc_sum(v) on the first row of a partition (v = 3): lag is NULL, acc_sum is 3.  The code answers the
+   STRING "3" (string-concatenation fallback of the expr bridge); NULL-propagating arithmetic answers NULL, and so
+   does the code for lag(v) - acc_sum(v). *)
+Lemma wrapper_sum_null_asis_refuted :
+  let cs := [ {| ca_fn := AFLag; ca_args := [AEField colv] |}; {| ca_fn := AFAcc AKSum; ca_args := [AEField colv] |} ] in
+  let h := [[(colv, AVInt 3)]] in
+  sm_run (an_field_apply_g false (AKExpr cs (WBin WAdd (WSelf 0) (WSelf 1)))) (AFSCalls (map (fun c => an_new_state (ca_fn c)) cs)) h
+    = [AOV (AVStr [51]%N)] /\
+  sm_run (an_field_apply_g true (AKExpr cs (WBin WAdd (WSelf 0) (WSelf 1)))) (AFSCalls (map (fun c => an_new_state (ca_fn c)) cs)) h
+    = [AOV AVNull] /\
+  sm_run (an_field_apply_g false (AKExpr cs (WBin WSub (WSelf 0) (WSelf 1)))) (AFSCalls (map (fun c => an_new_state (ca_fn c)) cs)) h
+    = [AOV AVNull].
+Proof. vm_compute. repeat split; reflexivity. Qed.
